@@ -113,7 +113,7 @@ func (g *Gen) targetedHostile() []string {
 	case 18:
 		return []string{"COMMAND", g.pick("GETKEYS", "GETKEYSANDFLAGS", "INFO", "DOCS", "LIST")}
 	case 19:
-		return []string{"RESTORE", "r" + strconv.Itoa(g.r.IntN(3)), g.pick("0", "-1", big), g.restorePayload(), g.pick("REPLACE", "ABSTTL")}[:4+g.r.IntN(2)]
+		return []string{"RESTORE", "r" + strconv.Itoa(g.r.IntN(3)), g.pick("0", "0", "0", "-1", big), g.restorePayload(), g.pick("REPLACE", "REPLACE", "ABSTTL")}[:4+g.r.IntN(2)]
 	case 20:
 		return []string{"SCAN", g.pick("0", big, "-1", "x"), "COUNT", g.pick("0", "-1", big, "10"), "MATCH", g.pick("*", "[", "\\")}
 	case 21:
@@ -134,7 +134,8 @@ func (g *Gen) restorePayload() string {
 	// version byte, type byte, 4-byte length, content, 8-byte trailer. An attacker
 	// who has seen DUMP output (or the source) can produce a matching trailer, so
 	// most payloads carry one: rotate-left-10/xor over everything before it.
-	body := []byte{1, byte([]int{1, 2, 4, 8, 0, 3, 255, 16}[g.r.IntN(8)])}
+	// type byte: single type flags, combinations of them, none, unknown bits
+	body := []byte{1, byte([]int{1, 2, 4, 8, 0, 3, 5, 9, 6, 12, 7, 15, 255, 16, 17}[g.r.IntN(15)])}
 	ln := []uint32{0, 1, 2, 5, 6, 100, 0x7fffffff, 0xffffffff, 0x80000000}[g.r.IntN(9)]
 	body = append(body, byte(ln>>24), byte(ln>>16), byte(ln>>8), byte(ln))
 	for i := 0; i < g.r.IntN(8); i++ {
@@ -216,6 +217,11 @@ func genHostilePlan(seed uint64, thorough bool) *Plan {
 				} else {
 					c = g.hostileCmd()
 				}
+				if g.chance(12) {
+					// crafted DUMP payloads more often: they are the one input that
+					// puts attacker-chosen bytes straight into the store
+					c = []string{"RESTORE", "r" + strconv.Itoa(g.r.IntN(3)), "0", g.restorePayload(), "REPLACE"}
+				}
 				if isBlockingCmd(c[0]) || strings.EqualFold(c[0], "QUIT") {
 					continue // blocking commands may legitimately not answer
 				}
@@ -240,7 +246,8 @@ func genHostilePlan(seed uint64, thorough bool) *Plan {
 				}
 				items = append(items, Item{Args: bs(c...), Tag: "hostile"})
 				if strings.EqualFold(c[0], "RESTORE") && len(c) > 1 {
-					for _, probe := range [][]string{{"TYPE", c[1]}, {"GET", c[1]}, {"LRANGE", c[1], "0", "-1"}, {"HGETALL", c[1]}, {"SMEMBERS", c[1]}, {"LLEN", c[1]}, {"STRLEN", c[1]}, {"DUMP", c[1]}, {"COPY", c[1], "rcopy", "REPLACE"}, {"DEL", c[1]}} {
+					for _, probe := range [][]string{{"TYPE", c[1]}, {"GET", c[1]}, {"LRANGE", c[1], "0", "-1"}, {"HGETALL", c[1]}, {"SMEMBERS", c[1]}, {"LLEN", c[1]}, {"STRLEN", c[1]}, {"DUMP", c[1]}, {"COPY", c[1], "rcopy", "REPLACE"},
+						{"HSET", c[1], "f", "v"}, {"HLEN", c[1]}, {"LPUSH", c[1], "x"}, {"SADD", c[1], "m"}, {"SCARD", c[1]}, {"APPEND", c[1], "z"}, {"SORT", c[1], "ALPHA"}, {"DEL", c[1]}} {
 						if g.chance(2) {
 							items = append(items, Item{Args: bs(probe...), Tag: "hostile"})
 						}
